@@ -36,17 +36,17 @@ LOOP = lambda body: r"(?: %s)*" % body
 
 def ser_table():
     t = {
-        "Bool": [r"json:as_bool push:0", r"json:as_bool push:1"],
+        "Bool": [r"json:as_bool push:0", r"json:as_bool push:1", r"json:as_bool push:bool"],
         "I8": [r"json:as_i64 try_from:i8 push:byte"],
         "U8": [r"json:as_u64 try_from:u8 push:byte"],
         "I16": [r"json:as_i64 try_from:i16 ZZ16 W16 extend:varint"],
         "I32": [r"json:as_i64 try_from:i32 ZZ32 W32 extend:varint"],
         "I64": [r"json:as_i64 ZZ64 W64 extend:varint"],
-        "I128": [r"json:as_i64 from:i128 ZZ128 W128 extend:varint"],
+        "I128": [r"json:as_i64 ZZ128 W128 extend:varint"],
         "U16": [r"json:as_u64 try_from:u16 W16 extend:varint"],
         "U32": [r"json:as_u64 try_from:u32 W32 extend:varint"],
         "U64": [r"json:as_u64 W64 extend:varint"],
-        "U128": [r"json:as_u64 from:u128 W128 extend:varint"],
+        "U128": [r"json:as_u64 W128 extend:varint"],
         "Usize": [r"json:as_u64 try_from:usize W64 extend:varint"],
         "Isize": [r"json:as_i64 ZZ64 W64 extend:varint"],
         "F32": [r"json:as_f64 to_le_bytes:f32 extend:le4"],
@@ -178,6 +178,10 @@ def run(run_, ctx):
     finish(run_, F, helpers, dc)
 
 
+# equivalent ways of writing one row set: all rows of one alternative must occur (indices into the arm's row list)
+ALTS = {("ser", "Bool"): [(0, 1), (2,)]}
+
+
 def check_tables(run_, F, helpers, RULE):
     for which, table in (("ser", ser_table()), ("de", de_table())):
         A = dynarms.Arms(F, helpers, which)
@@ -215,6 +219,9 @@ def check_tables(run_, F, helpers, RULE):
                     if th:
                         probs.append("R: " + th)
             missing = set(range(len(table[arm]))) - seen_rows
+            for alt in ALTS.get((which, arm), []):
+                if set(alt) <= seen_rows:
+                    missing = set()
             if not probs and missing and arm not in ("Enum",):
                 probs.append("expected behaviour never occurs: %s" % [table[arm][i] for i in sorted(missing)])
             if not probs and arm == "Enum" and len(seen_rows) < (4 if which == "ser" else 2):
